@@ -409,11 +409,45 @@ func registerIntercepts(g *Engine) {
 		return val
 	}
 	ic["verif:verifSettle"] = func(e *Exec, fn *ssa.Function, a []Value) Value { return nil }
+	// verifRunGoroutines: give every queued goroutine a turn, to completion or
+	// until it blocks; a blocked goroutine stays queued and is restarted from its
+	// beginning at the next turn (sound for bodies whose first action is the
+	// blocking wait, or whose loop is restartable — stated per harness).
 	ic["verif:verifRunGoroutines"] = func(e *Exec, fn *ssa.Function, a []Value) Value {
-		for len(e.goQueue) > 0 {
-			th := e.goQueue[0]
-			e.goQueue = e.goQueue[1:]
-			th()
+		for round := 0; round < 4; round++ {
+			q := e.goQueue
+			e.goQueue = nil
+			progressed := false
+			for _, th := range q {
+				th := th
+				blocked := func() (b bool) {
+					saved, depth := e.curFrame, e.depth
+					steps := e.steps
+					defer func() {
+						if r := recover(); r != nil {
+							if pe, ok := r.(pathEnd); ok && pe.kind == EndDeadlock {
+								e.curFrame, e.depth = saved, depth
+								b = true
+								if e.steps-steps > 200 {
+									progressed = true
+								}
+								return
+							}
+							panic(r)
+						}
+					}()
+					th()
+					return false
+				}()
+				if blocked {
+					e.goQueue = append(e.goQueue, th)
+				} else {
+					progressed = true
+				}
+			}
+			if !progressed {
+				break
+			}
 		}
 		return nil
 	}
@@ -422,10 +456,15 @@ func registerIntercepts(g *Engine) {
 	nop := func(e *Exec, fn *ssa.Function, a []Value) Value { return nil }
 	for _, n := range []string{"(*sync.Mutex).Lock", "(*sync.Mutex).Unlock", "(*sync.RWMutex).Lock", "(*sync.RWMutex).Unlock",
 		"(*sync.RWMutex).RLock", "(*sync.RWMutex).RUnlock", "(*sync.WaitGroup).Add", "(*sync.WaitGroup).Done", "(*sync.WaitGroup).Wait",
-		"(*sync.Cond).Broadcast", "(*sync.Cond).Signal", "runtime.Gosched", "runtime.KeepAlive", "runtime.SetFinalizer",
+		"(*sync.Cond).Broadcast", "(*sync.Cond).Signal", "runtime.KeepAlive", "runtime.SetFinalizer",
 		"internal/race.Acquire", "internal/race.Release", "internal/race.ReleaseMerge", "internal/race.Disable", "internal/race.Enable",
 		"internal/race.Read", "internal/race.Write", "internal/race.ReadRange", "internal/race.WriteRange"} {
 		ic[n] = nop
+	}
+	// a spin-wait (Gosched in a retry loop) waits for another goroutine: in the
+	// sequential model that is a blocked operation
+	ic["runtime.Gosched"] = func(e *Exec, fn *ssa.Function, a []Value) Value {
+		panic(pathEnd{EndDeadlock, "spin-wait (runtime.Gosched)" + e.where()})
 	}
 	ic["(*sync.Mutex).TryLock"] = func(e *Exec, fn *ssa.Function, a []Value) Value { return e.tb.True() }
 	ic["(*sync.WaitGroup).Go"] = func(e *Exec, fn *ssa.Function, a []Value) Value {
@@ -440,9 +479,14 @@ func registerIntercepts(g *Engine) {
 		e.callFuncVal(a[1].(FuncVal), nil, nil)
 		return nil
 	}
+	// sync.Pool: a free list (Put stores, Get returns a stored object or New())
 	ic["(*sync.Pool).Get"] = func(e *Exec, fn *ssa.Function, a []Value) Value {
 		l := e.derefLoc(a[0].(PtrVal))
-		// field "New" is the last field of sync.Pool
+		if fl, ok := e.hidden[l].(TupleVal); ok && len(fl) > 0 {
+			v := fl[len(fl)-1]
+			e.hidden[l] = fl[:len(fl)-1]
+			return v
+		}
 		st := l.typ.Underlying().(*types.Struct)
 		for i := 0; i < st.NumFields(); i++ {
 			if st.Field(i).Name() == "New" {
@@ -455,7 +499,12 @@ func registerIntercepts(g *Engine) {
 		}
 		return IfaceVal{}
 	}
-	ic["(*sync.Pool).Put"] = nop
+	ic["(*sync.Pool).Put"] = func(e *Exec, fn *ssa.Function, a []Value) Value {
+		l := e.derefLoc(a[0].(PtrVal))
+		fl, _ := e.hidden[l].(TupleVal)
+		e.hidden[l] = append(fl, a[1])
+		return nil
+	}
 
 	// sync.Map: sequential map model (hidden entry list per object)
 	smap := func(e *Exec, p Value) *MapObj {
